@@ -30,6 +30,16 @@ def translate(ctx):
                 for a, d in zip(reversed(n.args.args), reversed(n.args.defaults)):
                     if a.arg == 'max_unnormalization':
                         tol = ast.literal_eval(d)
+        if thr is None or tol is None:
+            # the same constants read from the live objects (robust to restructuring)
+            import inspect
+            from pero_ocr.decoding import decoders as _dm
+            if tol is None:
+                tol = inspect.signature(_dm.CTCPrefixLogRawNumpyDecoder.__call__).parameters['max_unnormalization'].default
+            if thr is None:
+                probe = np.array([-9.999, -10.0, -10.001])
+                if list(_dm.select_relevant_logits(probe)[0]) == [0]:
+                    thr = -10
         ctx.cov['translated_constants'] = dict(preselect_threshold=thr, max_unnormalization=tol)
         if thr != -10 or tol != 1e-5:
             ctx.brk('translator:decoder-constants', 'expected threshold -10 / tolerance 1e-5, found %r / %r' % (thr, tol))
@@ -51,6 +61,8 @@ def traced_call(dec, L, **kw):
     """Run the real decoder and record, without touching its source, the beam it holds at the START of every frame:
     compute_Pb is called exactly once per frame with the current (Pb, Pnb); find_new_prefixes returns the new prefixes."""
     from pero_ocr.decoding import decoders as dm
+    if not (hasattr(dec, 'compute_Pb') and hasattr(dec, 'compute_Plm') and hasattr(dm, 'find_new_prefixes')):
+        return dec(L, **kw), None        # the observation points are gone (refactoring): final results are still compared
     frames = []
     cur = {'prefixes': [()]}
     orig_pb, orig_fnp = dec.compute_Pb, dm.find_new_prefixes
@@ -73,8 +85,9 @@ def traced_call(dec, L, **kw):
     try:
         bag = dec(L, **kw)
     finally:
-        del dec.compute_Pb
-        del dec.compute_Plm
+        for name in ('compute_Pb', 'compute_Plm'):
+            if name in dec.__dict__:
+                del dec.__dict__[name]
         dm.find_new_prefixes = orig_fnp
     if kw.get('return_h'):
         return bag, [f + (plm.get(i),) for i, f in enumerate(frames)]
